@@ -56,6 +56,8 @@ for f in metrics:METRICS_PATH conversion:CONVERSION_RESPONSE_PATH admission:ADMI
   if [[ -f "$S/$n.delete" ]]; then rm -f "${!v}"; elif [[ -f "$S/$n" ]]; then cat "$S/$n" > "${!v}"; fi
 done
 if [[ -f "$S/sleep" ]]; then sleep "$(cat "$S/sleep")"; fi
+if [[ -f "$S/stderr" ]]; then echo "hook $id complains on stderr" >&2; fi
+if [[ -f "$S/kill" ]]; then kill -KILL $$; fi
 exit "$(cat "$S/exit")"
 `
 
@@ -73,6 +75,8 @@ type c12Exec struct {
 	patch   string
 	nctx    int
 	sleepMs int
+	stderr  bool // the hook writes a line to stderr (not a failure by itself)
+	killed  bool // the hook process ends by SIGKILL instead of exit (a non-zero exit for the executor)
 
 	// observed
 	status   string
@@ -261,6 +265,12 @@ func (e *c12Env) writeScripts(x *c12Exec, rng *Rng) error {
 			}
 		}
 	}
+	if x.stderr {
+		_ = os.WriteFile(filepath.Join(d, "stderr"), nil, 0o644)
+	}
+	if x.killed {
+		_ = os.WriteFile(filepath.Join(d, "kill"), nil, 0o644)
+	}
 	if x.sleepMs > 0 {
 		_ = os.WriteFile(filepath.Join(d, "sleep"), []byte(fmt.Sprintf("0.%03d", x.sleepMs)), 0o644)
 	}
@@ -447,7 +457,11 @@ func c12GenExec(rng *Rng, eid, nhooks, nq int) *c12Exec {
 	x := &c12Exec{eid: eid, hook: rng.Intn(nhooks), q: 1 + rng.Intn(nq), allow: rng.Chance(20), nctx: rng.Range(1, 3), sleepMs: rng.Intn(40)}
 	if rng.Chance(25) {
 		x.exit = PickOne(rng, []int{1, 2, 3, 127, 255})
+		if rng.Chance(15) {
+			x.exit, x.killed = 137, true
+		}
 	}
+	x.stderr = rng.Chance(30)
 	x.metrics = c12PickClass(rng, c12MetricsClasses)
 	x.adm = c12PickClass(rng, c12RespClasses)
 	x.conv = c12PickClass(rng, c12RespClasses)
@@ -457,7 +471,12 @@ func c12GenExec(rng *Rng, eid, nhooks, nq int) *c12Exec {
 
 func c12Notes(c *Case, xs []*c12Exec) {
 	for _, x := range xs {
-		if x.exit != 0 {
+		if x.stderr {
+			c.Note("stderr-output")
+		}
+		if x.killed {
+			c.Note("exit:killed-by-signal")
+		} else if x.exit != 0 {
 			c.Note("exit:nonzero")
 		} else {
 			c.Note("exit:0")
@@ -505,7 +524,7 @@ func c12Random(r *Run) func(c *Case, rng *Rng) {
 
 func runC12(r *Run) {
 	r.Rule = "a case = 1-3 generated bash hooks loaded by the real hook manager + 1-6 executions spread over 1-3 queue workers running " +
-		"concurrently; each execution has a scripted exit code (25% non-zero) and scripted contents of the metrics / admission / conversion / patch " +
+		"concurrently; each execution has a scripted exit code (25% non-zero, some killed by a signal; 30% write to stderr) and scripted contents of the metrics / admission / conversion / patch " +
 		"files (empty, valid, truncated, wrong type, deleted; metrics also valid-but-rejected batch; patch also failing application and invalid document); " +
 		"every execution goes through the real taskHandler -> handleRunHook -> Hook.Run with a real process, real MetricStorage and kube-client/fake; " +
 		"the hook records pwd, the six path variables, initial file sizes and the context file. Non-trivial = at least 2 executions or a non-empty output/non-zero exit."
